@@ -100,6 +100,13 @@ def run(tier, seed):
                 for seq in itertools.product(alpha, repeat=k):
                     jobs.append({"start": p, "calls": [("N", c, list(seq))]})
                     nontriv += models.count_breaks(p, seq, c) > 0
+    if tier == "thorough":
+        # deeper: every ordered pair over ALL harvested lengths at every (c, p) for c in 2..40
+        for c in range(2, 41):
+            for p in range(c):
+                for seq in itertools.product(lens, repeat=2):
+                    jobs.append({"start": p, "calls": [("N", c, list(seq))]})
+                    nontriv += models.count_breaks(p, seq, c) > 0
     if not rep.expired():
         verify(rep, jobs, L, "sequence")
         rep.bounds["sequences"] = len(jobs)
